@@ -187,6 +187,10 @@ def _ic(rng, style, n):
         return {"d0": [rng.gauss(0, 0.01) for _ in range(n)], "v0": [rng.gauss(0, 0.5) for _ in range(n)], "static": bool(rng.random() < 0.3)}
     if style == "v0static":
         return {"d0": None, "v0": [rng.gauss(0, 0.5) for _ in range(n)], "static": True}
+    if style == "v0":  # an initial velocity only: nothing else makes the solver apply the initial conditions
+        return {"d0": None, "v0": [rng.gauss(0, 0.5) for _ in range(n)], "static": False}
+    if style == "d0static":
+        return {"d0": [rng.gauss(0, 0.01) for _ in range(n)], "v0": None, "static": True}
     return {"d0": [rng.gauss(0, 0.01) for _ in range(n)], "v0": None, "static": False}
 
 
@@ -205,6 +209,10 @@ def _configs(ctx, count):
     base.append(("cplx", 1, 2, 2, 2, "full", "v0static"))
     base.append(("exp2", 1, 1, 3, 2, "full", "d0"))
     base.append(("cplx", 0, 1, 3, 0, "full", "d0v0"))
+    for kind in KINDS:  # every option combination of the initial conditions that is not covered above, on every solver
+        base.append((kind, 1, 1, 2, 1, "vec", "v0"))
+        base.append((kind, 0, 0, 2, 0, "none", "v0"))
+        base.append((kind, 1, 1, 2, 0, "full", "d0static"))
     for bi, (kind, order, nrb, nel, nrf, ms, ic) in enumerate(base):
         n = nrb + nel + nrf
         out.append(_mk_spec(rng, kind, order, nrb, nel, nrf, ms, _ic(rng, ic, n)))
@@ -217,7 +225,7 @@ def _configs(ctx, count):
         nel = rng.choice([1, 2, 2, 3])
         nrf = rng.choice([0, 0, 1, 2])
         ms = rng.choice(["none", "vec", "vec", "full"])
-        ic = rng.choice(["zero", "static", "d0v0", "v0static", "d0"])
+        ic = rng.choice(["zero", "static", "d0v0", "v0static", "d0", "v0", "v0", "d0static"])
         out.append(_mk_spec(rng, kind, order, nrb, nel, nrf, ms, _ic(rng, ic, nrb + nel + nrf),
                             explicit_rb=(rng.random() < 0.3)))
         if rng.random() < 0.45:
@@ -906,6 +914,7 @@ def correspondence(ctx):
         ctx.count("feat:m-none" if spec["m"] is None else "feat:m-given")
         ic = spec["ic"]
         ctx.count("ic:static" if (ic["static"] and ic["d0"] is None) else ("ic:d0v0" if (ic["d0"] is not None or ic["v0"] is not None) else "ic:zero"))
+        ctx.count("icopt:d0=%d,v0=%d,static=%d" % (ic["d0"] is not None, ic["v0"] is not None, bool(ic["static"])))
         for t in tags:
             ctx.count("op:" + t)
         for t in etags:
